@@ -4,7 +4,7 @@
    text vs the model, harness/props/c14.py). *)
 From Coq Require Import String.
 From Coq Require Import List Ascii Bool NArith Arith.
-Require Import Model.Text Model.Ast Model.Scope Model.Ident Model.Fmt Model.Eval Gen.PLimits Model.Import Proofs.ImportProofs.
+Require Import Model.Text Model.Paths Model.Ast Model.Scope Model.Ident Model.Fmt Model.Eval Gen.PLimits Model.Import Proofs.ImportProofs.
 Import ListNotations.
 Open Scope char_scope.
 
